@@ -49,6 +49,7 @@ func round6(c *Ctx) {
 	case "C06":
 		r12WideUnsignedAcrossCarriers(c)
 	case "C04":
+		r12SignedNumeralTextAsOperands(c)
 		r8ObjectsOfNumbers(c)
 		r9ListsOfBytesAndTaggedFields(c)
 	case "C01":
@@ -928,6 +929,26 @@ func r12NumbersWhoseCoefficientIsAMultipleOfTwoToThe64(c *Ctx) {
 				c.Do(Case{Q: "$.v." + pr, D: d, Cls: "round12/coefficient-a-multiple-of-2^64", InDomain: true})
 				c.Do(Case{Q: "$.v?." + pr, D: d, Cls: "round12/coefficient-a-multiple-of-2^64", InDomain: true})
 			}
+		}
+	}
+}
+
+// numbers kept as text with an explicit sign, a leading dot or padding zeros ("+0.1", "+1.5e-3", "-.5", "010", "0100", "-017", "+5") as the
+// RECEIVER of the arithmetic and aggregate functions, as an argument and as an element: the number they spell, like the same number as a decimal
+func r12SignedNumeralTextAsOperands(c *Ctx) {
+	for _, t := range []string{"+0.1", "+1.5e-3", "-.5", "+5", "010", "0100", "-017", "+.25", "007", "+0", "1_0"} {
+		d, err := decimal.NewFromString(t)
+		if err != nil {
+			continue // not a numeral for the library: outside what the property quantifies over
+		}
+		names := []string{"decimal", "text"}
+		mk := func(v *TV) *TV {
+			return tvMap("str", [][2]any{kv("n", v), kv("xs", tvSlice(1, v, tvF64(5), v)), kv("two", tvF64(2))})
+		}
+		docs := []*TV{mk(tvDec(d)), mk(tvStr(t))}
+		for _, q := range []string{"$.n.Sum(0.2)", "$.n.Add(1)", "$.n.Subtract(1)", "$.n.Multiply(2)", "$.n.Divide(4)", "$.n.Modulo(3)", "$.n.Average(0.3)", "$.n.Minimum(5)", "$.n.Maximum(-5)", "$.two.Add($.n)",
+			"$.two.Multiply($.n)", "$.xs.Sum()", "$.xs.Average()", "$.xs.Maximum()", "$.two.Sum($.xs)", "$.two.Add(\"" + t + "\")", "$.two.Sum(\"" + t + "\",1)"} {
+			c.sameAcross(q, names, docs, "round12/signed-numeral-text-as-operands")
 		}
 	}
 }
